@@ -120,6 +120,7 @@ type Sim struct {
 	DCSGate   func(inst, method, path string) error
 	zkSubs    []func(r fakezk.Rec) // called under the fake ZooKeeper's mutex; may lock the world, must not call the fake
 	dcsSubs   []func(inst, method, path, arg, res string)
+	fileSubs  []func(host, kind string, appeared bool)
 	iterSubs  []func(inst, state, next string, begin bool)
 	incarn    map[string]int
 	ctx       context.Context
@@ -534,6 +535,10 @@ func (s *Sim) KillLocked(in *Inst) {
 // Subscriptions must be made before instances start.
 func (s *Sim) OnDCS(f func(inst, method, path, arg, res string)) { s.dcsSubs = append(s.dcsSubs, f) }
 
+// OnFile subscribes to the appearance / removal of a host's emerge, resetup and maint files (polled every pump step,
+// called without any harness lock held).
+func (s *Sim) OnFile(f func(host, kind string, appeared bool)) { s.fileSubs = append(s.fileSubs, f) }
+
 // OnZK subscribes to every mutation of the coordination tree (called under the fake's mutex, after the cache update).
 func (s *Sim) OnZK(f func(r fakezk.Rec)) { s.zkSubs = append(s.zkSubs, f) }
 
@@ -653,6 +658,9 @@ func (s *Sim) pollFiles() {
 			if ex != s.files[k] {
 				s.files[k] = ex
 				s.W.Log(world.Event{Kind: "file", Who: h, Host: h, Class: kind, Res: map[bool]string{true: "appeared", false: "removed"}[ex]})
+				for _, f := range s.fileSubs {
+					f(h, kind, ex)
+				}
 			}
 		}
 		if s.ResetupOn.Load() && s.files[h+".resetup"] {
